@@ -400,16 +400,16 @@ Print Assumptions C03_fragment_sentence_instance.
    the text before; the scanner jumping over the span without looking at its delimiters; InlineCode.find taking the matches
    CoreTokens.find left; the candidate tokenizer.  leaf_spans = ref_spans and code_spans (every other span type needs a character absent
    from the sentence; CoreTokens comes before InlineCode) - both hold of every configuration (C03_fragment_document_configs) *)
-Theorem C03_code_in_sentence : forall types fn pre code post,
+Theorem C03_code_in_sentence : forall types fn n pre code post,      (* ticks n: n + 1 backticks - a span may be delimited by any number of them *)
   code_spans types = true -> code_ok pre code post = true ->
-  Inline.tokenize_inner types fn (pre ++ [96%Z] ++ code ++ [96%Z] ++ post) = EmphSentence.raw_if pre ++ [code_of code] ++ EmphSentence.raw_if post.
+  Inline.tokenize_inner types fn (pre ++ ticks n ++ code ++ ticks n ++ post) = EmphSentence.raw_if pre ++ [code_of n code] ++ EmphSentence.raw_if post.
 Proof. exact code_in_sentence. Qed.
 Print Assumptions C03_code_in_sentence.
 
 Theorem C03_code_in_sentence_hypotheses :
   (forallb (fun c => code_spans (cfg_span c)) [cfg_html; cfg_html_nohtml; cfg_markdown; cfg_latex; cfg_mathjax; cfg_default] = true) /\
   (code_ok ($"call ") ($"f(a, *b, **c)[0] _x_ ![i](u)") ($" now.") = true) /\
-  (code_of ($" x ") = InlineCode (mkCode [96%Z] [32%Z] ($"x"))) /\ (code_of ($"  ") = InlineCode (mkCode [96%Z] [] ($"  "))) /\
+  (code_of 0 ($" x ") = InlineCode (mkCode [96%Z] [32%Z] ($"x"))) /\ (code_of 1 ($"  ") = InlineCode (mkCode [96%Z; 96%Z] [] ($"  "))) /\
   (code_ok [] ($"a`b") [] = false) /\ (code_ok [] [] [] = false) /\ (code_ok [] ($"a<b") [] = false).
 Proof. split; [exact code_span_configs|exact code_span_instance]. Qed.
 Print Assumptions C03_code_in_sentence_hypotheses.
@@ -417,11 +417,11 @@ Print Assumptions C03_code_in_sentence_hypotheses.
 (* ... and such a sentence is a LEAF of the fragment (FTick), at every nesting depth: tokens, HTML (<code> around the escaped content)
    and the Markdown round trip (delimiter, padding, content, padding, delimiter give the text back) compose with the block laws *)
 Theorem C03_fragment_code_instance :
-  let t := FQuote [FTick 99 $"all " $"f(a, *b, **c)[0] _x_" $" now."; FMore (MBullet 45) 1 [FTick 97 $" " $" x " []] false (FItem (MBullet 45) 1 [FPara 122 [] []])] in
+  let t := FQuote [FTick 99 $"all " 0 $"f(a, *b, **c)[0] _x_" $" now."; FMore (MBullet 45) 1 [FTick 97 $" " 1 $" x " []] false (FItem (MBullet 45) 1 [FPara 122 [] []])] in
   wf_b t = true /\
-  text_of (spell t) = [ $"> call `f(a, *b, **c)[0] _x_` now." ++ [10%Z]; $"> " ++ [10%Z]; $"> - a ` x `" ++ [10%Z]; $"> - z" ++ [10%Z] ] /\
-  html_f (mkHopts false false) false (FTick 97 $" " $" x>y " []) = $"<p>a <code>x&gt;y</code></p>" /\
-  wf_b (FTick 97 [] $"x`y" []) = false /\ wf_b (FTick 97 [] $"x" $" ") = false.
+  text_of (spell t) = [ $"> call `f(a, *b, **c)[0] _x_` now." ++ [10%Z]; $"> " ++ [10%Z]; $"> - a `` x ``" ++ [10%Z]; $"> - z" ++ [10%Z] ] /\
+  html_f (mkHopts false false) false (FTick 97 $" " 2 $" x>y " []) = $"<p>a <code>x&gt;y</code></p>" /\
+  wf_b (FTick 97 [] 0 $"x`y" []) = false /\ wf_b (FTick 97 [] 0 $"x" $" ") = false.
 Proof. vm_compute. repeat split; reflexivity. Qed.
 Print Assumptions C03_fragment_code_instance.
 
